@@ -119,6 +119,12 @@ def f_panic(ctx, prog, reach, label, overrides=None, rule='F-PANIC', pre_sites=N
             if rec is not None and rec['ok'] > 0 and rec['open'] == 0 and rec['fail'] == 0 and covered:
                 ctx.ok(rule, key + '|bb-discharged')
                 continue
+            if s['kind'].startswith('assert') and guarded_increment(inst['body'], s['bb']):
+                ctx.ok(rule, key + '|guarded-increment')
+                continue
+            if s['kind'].startswith('assert') and enumerate_index(inst['body'], s['bb']):
+                ctx.ok(rule, key + '|enumerate-index')
+                continue
             row = site_table.get(key)
             if row is None:
                 import fnmatch
@@ -137,6 +143,122 @@ def f_panic(ctx, prog, reach, label, overrides=None, rule='F-PANIC', pre_sites=N
             ctx.violation(rule, key, 'potential panic (%s %s): %s%s' % (s['kind'], s['op'] or '', why, extra), where)
     ctx.count(rule + '.sites', n_sites)
     return n_sites
+
+
+def guarded_increment(body, bb):
+    """`x + 1` cannot overflow where every path to it has just passed the true edge of `x < y` with x unchanged since
+    (the counter of `while i < n { ..; i += 1 }`): x < y <= MAX of the common type."""
+    t = body['blocks'][bb]['t']
+    msg = t.get('msg') or {}
+    if t.get('k') != 'assert' or msg.get('kind') != 'Overflow' or msg.get('op') != 'Add':
+        return False
+    a, b = msg.get('a') or {}, msg.get('b') or {}
+    c = b.get('const')
+    cv = c.get('int') if isinstance(c, dict) else None
+    if cv is None and isinstance(c, dict):
+        cv = c.get('v')
+    x = mir.op_local(a)
+    if x is None or cv not in (1, '1'):
+        return False
+    cfg = mir.CFG(body)
+    dom = cfg.dominators()
+    blocks = body['blocks']
+
+    def copies_of(blk, upto=None):
+        """locals that hold a copy of x at the end of blk (simple `_t = copy x` chains inside the block)"""
+        same = {x}
+        for st in blk['s']:
+            if st['k'] != 'assign':
+                continue
+            d = st['p']['l'] if not st['p'].get('p') else None
+            r = st['r']
+            if d is None:
+                continue
+            if r.get('rv') == 'use' and mir.op_local(r['a']) in same:
+                same.add(d)
+            elif d in same and d != x:
+                same.discard(d)
+        return same
+    for sb in dom.get(bb, ()):
+        st_ = blocks[sb]['t']
+        if st_['k'] != 'switch' or sb == bb:
+            continue
+        dl = mir.op_local(st_['d'])
+        if dl is None:
+            continue
+        same = copies_of(blocks[sb])
+        cmp_ok = False
+        for s_ in blocks[sb]['s']:
+            if s_['k'] == 'assign' and not s_['p'].get('p') and s_['p']['l'] == dl and s_['r'].get('rv') == 'bin' and s_['r'].get('op') == 'Lt' \
+                    and mir.op_local(s_['r']['a']) in same:
+                cmp_ok = True
+        if not cmp_ok:
+            continue
+        # the true edge: the target taken for a non-zero discriminant
+        false_t = [tg for v, tg in st_['vs'] if v == 0]
+        true_t = st_['o'] if false_t else None
+        if true_t is None or true_t not in dom.get(bb, ()) or (false_t and false_t[0] == true_t):
+            continue
+        # x is not assigned between the comparison and the addition
+        between = [b_ for b_ in cfg.reach if true_t in dom.get(b_, ()) and b_ != bb and bb in cfg.reachable_from(b_, avoid=(sb,))] + [bb]
+        clean = True
+        for b_ in between:
+            for s_ in blocks[b_]['s']:
+                if s_['k'] == 'assign' and s_['p']['l'] == x and (b_ != bb or True):
+                    clean = False
+                if s_['k'] == 'assign' and s_['r'].get('rv') in ('ref', 'addr_of') and s_['r'].get('mut') and s_['r']['p']['l'] == x and not s_['r']['p'].get('p'):
+                    clean = False
+            tt = blocks[b_]['t']
+            if b_ != bb and tt['k'] == 'call' and tt.get('dest') and tt['dest']['l'] == x:
+                clean = False
+        if clean:
+            return True
+    return False
+
+
+IN_MEMORY_ITERS = ('std::slice::Iter<', 'std::slice::IterMut<', 'std::str::Chars<', 'std::str::Bytes<', 'std::str::CharIndices<',
+                   'core::slice::Iter<', 'core::slice::iter::Iter<', 'std::slice::iter::Iter<')
+
+
+def enumerate_index(body, bb):
+    """`i + 1` cannot overflow when i is the index `Enumerate` yields over an in-memory sequence: fewer than isize::MAX items
+    exist, so every index it yields is below isize::MAX."""
+    t = body['blocks'][bb]['t']
+    msg = t.get('msg') or {}
+    if t.get('k') != 'assert' or msg.get('kind') != 'Overflow' or msg.get('op') != 'Add':
+        return False
+    c = (msg.get('b') or {}).get('const')
+    if not isinstance(c, dict) or c.get('v') != 1:
+        return False
+    x = mir.op_local(msg.get('a') or {})
+    if x is None:
+        return False
+    proj = []
+    seen = set()
+    while x not in seen:
+        seen.add(x)
+        defs = [s_ for b_ in body['blocks'] for s_ in b_['s'] if s_['k'] == 'assign' and s_['p']['l'] == x]
+        calls = [b_['t'] for b_ in body['blocks'] if b_['t']['k'] == 'call' and b_['t'].get('dest') and b_['t']['dest']['l'] == x]
+        if calls and not defs:
+            if len(calls) != 1 or calls[0]['dest'].get('p'):
+                return False
+            f = calls[0].get('f') or {}
+            rp = f.get('rpath') or f.get('path') or ''
+            inner = ' '.join(f.get('rargs') or []) + ' ' + (f.get('self_ty') or '')
+            if not (rp.endswith('Enumerate<I> as std::iter::Iterator>::next') or rp.endswith('Enumerate<I> as core::iter::Iterator>::next')):
+                return False
+            if not any(k_ in inner for k_ in IN_MEMORY_ITERS):
+                return False
+            kinds = [(e.get('k'), e.get('n') if e.get('k') == 'downcast' else e.get('i')) for e in proj]
+            return kinds == [('downcast', 'Some'), ('field', 0), ('field', 0)]
+        if len(defs) != 1 or defs[0]['p'].get('p') or defs[0]['r'].get('rv') != 'use':
+            return False
+        pl = mir.op_place(defs[0]['r']['a'])
+        if pl is None:
+            return False
+        proj = list(pl.get('p') or []) + proj
+        x = pl['l']
+    return False
 
 
 def f_unsafe(ctx, prog):
